@@ -58,6 +58,10 @@ type Table struct {
 	PKDesc       []bool   `json:",omitempty"`
 	PKColl       []string `json:",omitempty"`
 	Indexes      []Index  `json:",omitempty"`
+	// Phantom rows have entries in the secondary indexes but are missing in
+	// the table itself: a damaged file (index entries without a row). Their
+	// index entries carry Row = -(position+1).
+	Phantom []Row `json:",omitempty"`
 }
 
 // MasterRow replaces a row of sqlite_master (hostile schema generation). If
@@ -268,7 +272,7 @@ func Build(spec *Image) (res *Built, err error) {
 						bi.Key = append(bi.Key, refcmp.KeyCol{Collate: at(t.PKColl, k), Desc: atb(t.PKDesc, k) && !legacy})
 					}
 				}
-				for ri, r := range t.Rows {
+				addEntry := func(ri int, r Row) {
 					all := pad(r.Values(), t.NCols)
 					var vs []val.V
 					for _, c := range ix.Cols {
@@ -278,6 +282,12 @@ func Build(spec *Image) (res *Built, err error) {
 						vs = append(vs, all[k])
 					}
 					bi.Entries = append(bi.Entries, Entry{Values: vs, Row: ri})
+				}
+				for ri, r := range t.Rows {
+					addEntry(ri, r)
+				}
+				for pi, r := range t.Phantom {
+					addEntry(-(pi + 1), r)
 				}
 				sort.SliceStable(bi.Entries, func(i, j int) bool {
 					return CmpEntries(bi.Entries[i].Values, bi.Entries[j].Values, bi.Key) < 0
@@ -302,7 +312,7 @@ func Build(spec *Image) (res *Built, err error) {
 			for ii := range t.Indexes {
 				ix := &t.Indexes[ii]
 				bi := &BuiltIndex{Spec: ix, Key: keyCols(ix.Coll, ix.Desc, len(ix.Cols))}
-				for ri, r := range t.Rows {
+				addEntry := func(ri int, r Row) {
 					var vs []val.V
 					logical := t.Logical(r)
 					for _, c := range ix.Cols {
@@ -310,6 +320,12 @@ func Build(spec *Image) (res *Built, err error) {
 					}
 					vs = append(vs, val.Int(r.Rowid))
 					bi.Entries = append(bi.Entries, Entry{Values: vs, Row: ri})
+				}
+				for ri, r := range t.Rows {
+					addEntry(ri, r)
+				}
+				for pi, r := range t.Phantom {
+					addEntry(-(pi + 1), r)
 				}
 				sort.SliceStable(bi.Entries, func(i, j int) bool {
 					return CmpEntries(bi.Entries[i].Values, bi.Entries[j].Values, bi.Key) < 0
